@@ -60,7 +60,7 @@ def _no_data_branch_unreachable(ctx, py):
             return v
         w.Mt = Mt
         sensors = [sched.SensorA(w)]
-        hooks = C09.Hooks(w, sensors, ["SensorA"])
+        hooks = C09.Hooks(w, sensors, ["SensorA"], func=F.run_feedback_filter)
         cap = sched.BunchCapture()
         gm, am = sched.ModelStub(w, "gyro"), sched.ModelStub(w, "accel")
         integ = []
